@@ -9,7 +9,7 @@ namespace SessionCtl
 
 theorem inv_mid (cfg : Cfg) (s : St) (h : inv cfg s = true) (hg : cfg.golang = false) (hs : s.status = .notBuilt) (hd : s.hsDone = false) :
     mid cfg s = true := by
-  obtain ⟨hasCache, state, locked, tracker, calling, status, tRef, pRef, specT, userT, specP, userP, lT, lP, hsS, hsE, hT, hP, raw, ts, shares, filled, held, done⟩ := s
+  obtain ⟨hasCache, state, locked, tracker, calling, status, tRef, pRef, specT, userT, specP, userP, lT, lP, hsS, hsE, hT, hP, raw, ts, shares, filled, held, done, bfresh⟩ := s
   obtain ⟨golang, custom, cT, cP, skip, disabled⟩ := cfg
   cases state <;> cases locked <;> simp_all [inv, mid, usable, freshObjs, keysOk]
 
@@ -18,7 +18,7 @@ theorem applyPreset_spec (cfg : Cfg) (s : St) (h : mid cfg s = true) :
     (match applyPreset cfg s with
      | (s', none) => presetOk cfg s s'
      | (s', some o) => presetFail cfg s s' o) = true := by
-  obtain ⟨hasCache, state, locked, tracker, calling, status, tRef, pRef, specT, userT, specP, userP, lT, lP, hsS, hsE, hT, hP, raw, ts, shares, filled, held, done⟩ := s
+  obtain ⟨hasCache, state, locked, tracker, calling, status, tRef, pRef, specT, userT, specP, userP, lT, lP, hsS, hsE, hT, hP, raw, ts, shares, filled, held, done, bfresh⟩ := s
   obtain ⟨golang, custom, cT, cP, skip, disabled⟩ := cfg
   cases cT <;> cases cP <;> cases state <;> cases tRef <;> cases pRef <;> cases filled <;>
     simp_all [mid, applyPreset, syncSessionExts, okR, failR, R.andThen, docAssert, uAssert, usable, freshObjs, keysOk, sameObjs, presetOk, presetFail]
